@@ -133,7 +133,7 @@ impl Prop for C20 {
     fn n_cases(&self, tier: Tier) -> usize { cases(tier).len() }
     fn case_label(&self, tier: Tier, idx: usize) -> String { cases(tier)[idx].0.clone() }
     fn rule(&self) -> String {
-        "names: every sequence of 1..4 (quick) / 1..5 (thorough) tokens from a 19-token alphabet (words, capitalised words, a \
+        "names: every sequence of 1..4 (quick) / 1..5 (thorough) tokens from a 27-token alphabet (19 core tokens in every position; the 8 extra ones in every position of names of up to 2 (quick) / 4 (thorough) tokens and as the first token of longer names) (words, capitalised words, a \
          dotted acronym, roman numerals I-forms, numbers 2/16/2003, hyphenated pairs, a '44-'45 number range, a word with \
          punctuation, a number-word hyphenation, three words gluing digits and letters) x bracket suffix {none, year, edition, 'legacy 1.6', HD, II, 64, X} x mod suffix {none, \
          ' - FiveM', ' - Multi Theft Auto'}; for each name: the checker must not panic; the ids it reports as expected must \
@@ -156,8 +156,8 @@ impl Prop for C20 {
                 loop {
                     for b in 0 .. BRACKETS.len() {
                         // quick tier: the four short bracket contents with names of up to 3 tokens (the bracket is handled
-                        // before and independently of the words); all of them with every length in thorough
-                        if b >= 4 && len > 3 && !tier.is_thorough() {
+                        // before and independently of the words); all of them with every length up to 4 in thorough
+                        if b >= 4 && ((len > 3 && !tier.is_thorough()) || len > 4) {
                             continue;
                         }
                         for m in 0 .. MODS.len() {
@@ -215,7 +215,8 @@ impl Prop for C20 {
                     // next token sequence (first token fixed)
                     // quick tier: the extra tokens appear in every position of names of up to two tokens and as the first token of
                     // names of three; thorough: everywhere
-                    let limit = if len > 2 && !tier.is_thorough() { CORE_TOKENS } else { TOKENS.len() };
+                    // (names of five tokens, thorough only: the extra tokens as the first token, the short brackets)
+                    let limit = if (len > 2 && !tier.is_thorough()) || len > 4 { CORE_TOKENS } else { TOKENS.len() };
                     let mut i = len;
                     loop {
                         if i == 1 {
